@@ -114,5 +114,8 @@ class Disposables:
 
         exceptions: list[BaseException] = [exc for exc in results if isinstance(exc, BaseException)]
 
-        if len(exceptions) > 1:
+        if len(exceptions) == 1:
+            raise exceptions[0]
+
+        elif len(exceptions) > 1:
             raise BaseExceptionGroup("Disposing errors", exceptions)
